@@ -227,6 +227,83 @@ def subImageArea (parentSize : Sz) (area : Rect) : Option Rect := do
   let c ← cropArea area parentSize
   intersection ⟨Pt.zero, parentSize⟩ c
 
+/-! ## `draw_sub_image` called directly (not through `sub_image()`, which crops first) -/
+
+/-- `<ImageRaw as ImageDrawable>::draw_sub_image` (src/image/image_raw.rs l. 221-246, as repaired
+by a083ac5), the guard and the arguments of `ContiguousPixels::new`: `some none` = the guard says
+"draw nothing", `some (some (initial_skip, row_skip))` = the area is drawn. The guard is
+`is_zero_sized() || x < 0 || y < 0 || u64::from(x as u32) + u64::from(width) >
+u64::from(self.width) || (the same for y)`: the sums are `u64` additions of two `u32` values
+behind the short-circuit `||`; `initial_skip = y as usize * data_width + x as usize`,
+`row_skip = data_width - width` in `usize`. -/
+def drawSubImageSkips (im : ImageRaw) (area : Rect) : Option (Option (Nat × Nat)) :=
+  if area.isZeroSized ∨ area.tl.x < 0 ∨ area.tl.y < 0 then pure none
+  else do
+    let xr ← chkU64 (i32AsU32 area.tl.x + area.size.w)
+    if xr > im.size.w then pure none
+    else do
+      let yb ← chkU64 (i32AsU32 area.tl.y + area.size.h)
+      if yb > im.size.h then pure none
+      else do
+        let dw ← imageDataWidth im.bits im.size.w
+        let m ← chkUsize (area.tl.y.toNat * dw)
+        let initialSkip ← chkUsize (m + area.tl.x.toNat)
+        let rowSkip ← subU dw area.size.w
+        pure (some (initialSkip, rowSkip))
+
+/-- `<SubImage as ImageDrawable>::draw_sub_image` (src/image/sub_image.rs l. 93-108, as repaired by
+a083ac5): the corner in the parent's coordinates is built with `checked_add`; `none` = "not
+representable: draw nothing" — a value, not a panic. -/
+def subImageForwardArea (own area : Rect) : Option Rect :=
+  match chkI32 (area.tl.x + own.tl.x), chkI32 (area.tl.y + own.tl.y) with
+  | some x, some y => some ⟨⟨x, y⟩, area.size⟩
+  | _, _ => none
+
+/-- `draw_sub_image` on a sub-image (own area `own`) of a raw image: forward, then the parent's
+guard. Outer `none` = panic. -/
+def subDrawSubImageSkips (im : ImageRaw) (own area : Rect) : Option (Option (Nat × Nat)) :=
+  match subImageForwardArea own area with
+  | none => pure none
+  | some a => drawSubImageSkips im a
+
+namespace Old
+
+/-- before a083ac5: `x as u32 + width > self.width` in `u32` -/
+def drawSubImageSkips (im : ImageRaw) (area : Rect) : Option (Option (Nat × Nat)) :=
+  if area.isZeroSized ∨ area.tl.x < 0 ∨ area.tl.y < 0 then pure none
+  else do
+    let xr ← chkU32 (i32AsU32 area.tl.x + area.size.w)
+    if xr > im.size.w then pure none
+    else do
+      let yb ← chkU32 (i32AsU32 area.tl.y + area.size.h)
+      if yb > im.size.h then pure none
+      else do
+        let dw ← imageDataWidth im.bits im.size.w
+        let m ← chkUsize (area.tl.y.toNat * dw)
+        let initialSkip ← chkUsize (m + area.tl.x.toNat)
+        let rowSkip ← subU dw area.size.w
+        pure (some (initialSkip, rowSkip))
+
+/-- before a083ac5: `area.translate(self.area.top_left)` (`Point + Point` in `i32`) -/
+def subImageForwardArea (own area : Rect) : Option Rect := translate area own.tl
+
+end Old
+
+namespace Seeded
+
+/-- The OLD guard without the `x < 0 || y < 0` tests (a seeded change of round 3): `true` = "draw
+nothing". The casts of negative corners reach the `u32` additions. -/
+def drawSubImageRejects (im : ImageRaw) (area : Rect) : Option Bool :=
+  if area.isZeroSized then pure true
+  else do
+    let xr ← chkU32 (i32AsU32 area.tl.x + area.size.w)
+    if xr > im.size.w then pure true
+    else do
+      let yb ← chkU32 (i32AsU32 area.tl.y + area.size.h)
+      pure (decide (yb > im.size.h))
+
+end Seeded
+
 /-! ## Text metrics -/
 
 namespace TextM
